@@ -73,11 +73,32 @@ fn step(run: &mut Run, s: &Script) {
     if run.next == 0 {
         let keys = sess.keys();
         let mut rng = ScriptRng::new(&sess.stream);
-        match d.setup_sender(&sess.mode_s(&keys), &keys.pk_r, &sess.info, &mut rng) {
-            Ok((enc, snd)) => {
+        // the info string is handed over in a buffer that every session set up on this thread reuses:
+        // the address (and capacity) of an argument is not an explicit input either, and a cache
+        // keyed on it instead of on the bytes must not go unnoticed because each case happens to own
+        // a separate allocation
+        thread_local! {
+            static INFO_BUF: std::cell::RefCell<Vec<u8>> = std::cell::RefCell::new(Vec::with_capacity(8192));
+        }
+        let info_copy: Vec<u8> = sess.info.0.clone();
+        let res = INFO_BUF.with(|b| {
+            let mut b = b.borrow_mut();
+            b.clear();
+            b.extend_from_slice(&info_copy);
+            let info: &[u8] = &b[..];
+            match d.setup_sender(&sess.mode_s(&keys), &keys.pk_r, info, &mut rng) {
+                Ok((enc, snd)) => {
+                    let r = d.setup_receiver(&sess.mode_r(&keys), &keys.sk_r, &enc, info);
+                    Ok((enc, snd, r))
+                }
+                Err(f) => Err(f),
+            }
+        });
+        match res {
+            Ok((enc, snd, rres)) => {
                 run.transcript.push(format!("setup_sender: enc={} drawn={} calls={}", hex(&enc), rng.drawn(), rng.calls));
                 run.snd = Some(snd);
-                match d.setup_receiver(&sess.mode_r(&keys), &keys.sk_r, &enc, &sess.info) {
+                match rres {
                     Ok(r) => {
                         run.transcript.push("setup_receiver: ok".into());
                         run.rcv = Some(r);
@@ -467,7 +488,7 @@ impl Property for P {
         "C18"
     }
     fn rule(&self) -> String {
-        "Generated: scripts of 2..=6 independent sessions (any of 48 suites), each a short list of setup, seals, opens, a failing open and exports on both sides; sessions deliberately share components with the first one with probability 1/2 each (recipient key, info, psk, RNG stream, suite) so that a cache keyed on part of the inputs is hit, or (probability 1/2) have the same suite, mode and concatenation psk_id||info resp. psk||psk_id as the first one cut at a different place, so that a cache keyed on an unframed concatenation is hit; an interleaving (owned by the harness, single-threaded) and a thread count 2..=8. \
+        "Generated: scripts of 2..=6 independent sessions (any of 48 suites), each a short list of setup, seals, opens, a failing open and exports on both sides; sessions deliberately share components with the first one with probability 1/2 each (recipient key, info, psk, RNG stream, suite) so that a cache keyed on part of the inputs is hit, or (probability 1/2) have the same suite, mode and concatenation psk_id||info resp. psk||psk_id as the first one cut at a different place, so that a cache keyed on an unframed concatenation is hit; an info of the same length may be a permutation of the first session's (same byte sum); every setup on a thread receives its info in one reused buffer (same address), so that a cache keyed on the argument's address, length or checksum is hit; an interleaving (owned by the harness, single-threaded) and a thread count 2..=8. \
          Oracle: per-session transcripts (enc, ciphertexts, plaintexts, exports, errors, RNG bytes drawn) are identical in: sequential order, reverse order, the generated interleaving, every operation on a different thread (contexts moved between threads through channels), every session on its own thread concurrently, and a second sequential execution later in the process; concurrent shared-reference exports equal the sequential values; for 28 sweep sessions (one per 7th suite x mode cell) the transcript computed in this long-lived process equals the one computed by a fresh child process that runs nothing else (process-history independence). Compile probe probes/c18: Send + Sync for contexts, keys, tags, encapsulated keys, shared secrets, PskBundle, OpModeS/R, HpkeError over all 48 suites. \
          Non-trivial: >=2 sessions whose interleaving switches context between two seals of the same context."
             .into()
@@ -539,7 +560,24 @@ impl Property for P {
                             if mask & 32 != 0 {
                                 // same info length, different content (a cache keyed on the length)
                                 let l = base.info.len();
-                                sess.info = Bytes(gen::fill(l, 9, mask as u64 + i as u64));
+                                sess.info = if mask & 1 != 0 && l >= 2 {
+                                    // a permutation of the same bytes: same length, same byte sum / xor
+                                    let mut v = base.info.0.clone();
+                                    if v.iter().all(|&x| x == v[0]) {
+                                        v[0] = v[0].wrapping_add(1);
+                                        v[1] = v[1].wrapping_sub(1);
+                                    } else if mask & 2 != 0 {
+                                        v.reverse();
+                                        if v == base.info.0 {
+                                            v.rotate_left(1);
+                                        }
+                                    } else {
+                                        v.rotate_left(1 + (mask as usize >> 3) % (l - 1).max(1));
+                                    }
+                                    Bytes(v)
+                                } else {
+                                    Bytes(gen::fill(l, 9, mask as u64 + i as u64))
+                                };
                             }
                             if mask & 64 != 0 {
                                 sess.ikm_s = base.ikm_s.clone();
@@ -566,6 +604,13 @@ impl Property for P {
             b.stream = Bytes(gen::fill(160, 9, 1818));
             let mut c = gen::cell_session(s, (m + 1) % 4, 19);
             c.info = Bytes(gen::fill(a.info.len(), 9, 77));
+            // and one session identical to the first except that its info is a rotation of the first's
+            // (same length, same multiset of bytes), run right after it
+            let mut rot = a.clone();
+            let mut ri = a.info.0.clone();
+            ri.rotate_left(3);
+            rot.info = Bytes(ri);
+            let rot_script = Script { sess: rot, ops: vec![SOp::Seal(gen::fixed_msgs(18)[0].clone()), SOp::ExportS { ctx: Bytes(b"x".to_vec()), len: 24 }, SOp::OpenNext, SOp::ExportR { ctx: Bytes(b"x".to_vec()), len: 24 }] };
             let ops = vec![
                 SOp::Seal(gen::fixed_msgs(18)[0].clone()),
                 SOp::ExportS { ctx: Bytes(b"x".to_vec()), len: 24 },
@@ -591,7 +636,7 @@ impl Property for P {
                 });
             }
             v.push(Case {
-                scripts: vec![Script { sess: a, ops: ops.clone() }, Script { sess: b, ops: ops.clone() }, Script { sess: c, ops }],
+                scripts: vec![Script { sess: a, ops: ops.clone() }, rot_script, Script { sess: b, ops: ops.clone() }, Script { sess: c, ops }],
                 schedule: (0..24).map(|i| (i * 21845) as u16).collect(),
                 threads: 3,
             });
